@@ -2,10 +2,14 @@
    Heap/BlockIds.v.  Proved for all inputs, call by call: what AudioChannelFormat::add(block) assigns and rejects, that
    it keeps the labelling and consecutive numbering of a block vector, what set(AudioChannelFormatId) and
    reassignBlockFormats do to the blocks, that pack and channel formats only ever get IDs of their own type, and that
-   a track format without ID takes type and value of its stream format.  Partial (suffix _partial where it matters):
-   these are preservation steps; that every state reached by arbitrary histories (including copies and parsed files)
-   satisfies the labelling is explored by the differential run with the ID-shape oracle on every snapshot. *)
-From Adm Require Import Heap.Exec Heap.More Heap.Frame Heap.BlockIds.
+   a track format without ID takes type and value of its stream format; and (Heap/Labels.v) the labelling as an
+   invariant of every history of the modelled calls - the twelve core calls, block additions, times, copy(),
+   Document::deepCopy, deepCopyTo, reassignIds, RouteTracer, updateBlockFormatDurations.  The value clause is
+   conditional on the channel format's ID being defined: AudioChannelFormat::set returns early for the undefined ID
+   and leaves the blocks as they are, and the property speaks of channel formats "with a defined ID".
+   Not covered by the invariant: documents produced by the parser (explored by the ID-shape oracle on parsed files
+   in the C01/C02 runs). *)
+From Adm Require Import Heap.Exec Heap.More gen.PlansGen Heap.Frame Heap.BlockIds Heap.WFExt Heap.Labels.
 Local Open Scope N_scope.
 
 Theorem C11_block_without_id_gets_next : forall h t b s e, get_elem s h = Some e -> ekind e = KChan ->
@@ -70,3 +74,34 @@ Theorem C11_set_id_of_other_type_rejected : forall h i s e, get_elem s h = Some 
   set_id h i s = (s, inr TypeMismatch).
 Proof. exact set_id_wrong_type_rejected. Qed.
 Print Assumptions C11_set_id_of_other_type_rejected.
+
+(* ---------- the labelling in every reached state ---------- *)
+Theorem C11_every_call_keeps_labelling : forall o s s' v, Lab s -> xexec gen_plans o s = (s', inl v) -> Lab s'.
+Proof. exact (fun o s s' v L H => lpres_xexec gen_plans o s s' v H L). Qed.
+Print Assumptions C11_every_call_keeps_labelling.
+
+Theorem C11_labelling_in_every_history : forall ops s', xrun_succ gen_plans ops empty_state = Some s' ->
+  forall h e, get_elem s' h = Some e ->
+    ((ekind e = KPack \/ ekind e = KChan) -> is_undefined (ekind e) (eid e) = false -> ity (eid e) = etd e) /\
+    (ekind e = KChan ->
+       (forall t, consec (eblocks e t) /\ forall b, In b (eblocks e t) -> ity (bid b) = etd e) /\
+       (is_undefined KChan (eid e) = false -> forall t b, In b (eblocks e t) -> ival (bid b) = ival (eid e))).
+Proof. exact (fun ops s' H => lab_invariant gen_plans ops empty_state s' empty_Lab H). Qed.
+Print Assumptions C11_labelling_in_every_history.
+
+(* a history with blocks added before the channel format has an ID, an explicit block ID, a second vector, a stream
+   format that references the channel format, reassignIds and a deep copy: the channel format and its copy *)
+Example C11_history_exists :
+  match xrun_succ gen_plans
+          [XBase (ONewDoc 1); XBase (ONew 2 KChan 3 false); XBase (ONew 3 KStream 0 false);
+           XAddBlock 2 3 (mkId 0 0 0) None None; XAddBlock 2 3 (mkId 0 0 0) None None;
+           XBase (OSetId 2 (mkId 3 4200 0)); XBase (OSetRef StreamChan 3 2); XBase (OAdd 1 3);
+           XAddBlock 2 3 (mkId 3 4200 3) None None; XAddBlock 2 1 (mkId 0 0 0) None None;
+           XReassign 1; XDeepCopy 1 5 10] empty_state with
+  | Some s => map (fun h => option_map (fun e => (eid e, map bid (eblocks e 3), map bid (eblocks e 1))) (get_elem s h))
+                  [2; 10]%positive
+              = [Some (mkId 3 4097 0, [mkId 3 4097 1; mkId 3 4097 2; mkId 3 4097 3], [mkId 3 4097 1]);
+                 Some (mkId 3 4097 0, [mkId 3 4097 1; mkId 3 4097 2; mkId 3 4097 3], [mkId 3 4097 1])]
+  | None => False
+  end.
+Proof. vm_compute. reflexivity. Qed.
